@@ -290,6 +290,7 @@ func checkC12(c *Ctx, r *Result, tier string) {
 	c12Bypass(c, r, blockFn, userLock, fOwners)
 
 	// R12d
+	cActionThreadID(c, r, "R12f")
 	c12Sentinel(c, r, clearOwner != nil, func() ssa.Value {
 		if clearOwner != nil {
 			return clearOwner.val
